@@ -16,7 +16,7 @@
       from the netlist and ignored from an Instance root (what the code does: finding C13-K6). *)
 From Coq Require Import List Arith NArith Bool Lia.
 From SV Require Import Base.Base IR.State Proofs.Inv1a Proofs.Inv2a Hier.Paths Hier.Enum Hier.Trace Hier.Conn
-  Hier.TraceRoots Proofs.HierValid Proofs.HierEnum Proofs.HierUniq Proofs.HierClosure Proofs.HierTrace
+  Hier.TraceRoots Proofs.HierValid Proofs.HierEnum Proofs.HierUniq Proofs.HierOcc Proofs.HierClosure Proofs.HierTrace
   Proofs.HierTracePort Proofs.HierCables Proofs.HierCablesEx.
 Import ListNotations.
 
@@ -515,6 +515,56 @@ Example ex3_ordered :
   = Some (Some [[12; 11; 14]; [13; 11; 14]; [7; 6; 10; 14]; [8; 6; 10; 14]]).
 Proof. vm_compute. reflexivity. Qed.
 
+
+(* ------------------------------------------------------------------------------------------ *)
+(* 7. an Instance given as a plain element (not recursive, INSIDE): the wires of its cell at every
+      occurrence of the instance - the valid instance paths ending in it, below the top instance of
+      whichever netlist (C11_hrefs_of_instances) - each once. The patterns play no part (what the
+      code does: finding C13-K6). *)
+Lemma collect_marked_inside s : forall occ,
+  (forall p, In p occ -> is_valid s p = true /\ exists x r, p = x :: r /\ kind_of s x = Some KInstance) ->
+  collect (hw_entry s SInside false) (mark true occ) = Some (flat_map (hwires_at s) occ, [], []).
+Proof.
+  induction occ as [|a occ IH]; intro H; [reflexivity|].
+  destruct (H a (or_introl eq_refl)) as (Hv & x & r & -> & Hk).
+  unfold mark. cbn [map collect]. fold (mark true occ). rewrite IH by (intros p Hp; apply H; right; exact Hp).
+  unfold hw_entry. rewrite Hv. cbn [negb]. rewrite Hk. unfold bypass_scope, scope.
+  cbn [option_map flat_map trip_app app]. rewrite app_nil_r. reflexivity.
+Qed.
+
+Theorem get_hwires_roots_instance_element : forall s x pat usum,
+  Inv1a s -> Inv2a s -> WFk s -> acyclic s -> kind_of s x = Some KInstance ->
+  exists l, get_hwires_roots s SInside false pat usum [RObj (QId x)] = Some l /\ NoDup l /\
+    (forall h, In h l <-> exists p, (exists t, is_path s t p) /\ hd_error p = Some x /\ In h (hwires_at s p)).
+Proof.
+  intros s x pat usum I1 I2 K A Hk.
+  destruct (HierOcc.hrefs_of_instances_spec s [x] I1 I2 K A) as (occ & Eo & _ & So).
+  assert (Hocc : forall p, In p occ ->
+            is_valid s p = true /\ exists y r, p = y :: r /\ kind_of s y = Some KInstance).
+  { intros p Hp. apply So in Hp as ((t & Hpath) & _). split.
+    - apply (is_valid_iff s _ I1 I2 K). apply hr_inst with t. exact Hpath.
+    - destruct p as [|y r]; [destruct Hpath as (_ & Hr); inversion Hr|].
+      exists y, r. split; [reflexivity|]. exact (path_head_kind s K t y r Hpath). }
+  unfold get_hwires_roots, with_roots, expand_roots. cbn [rev app flat_opt fold_right expand_root].
+  rewrite Hk. unfold href in *. rewrite Eo. cbn [option_map]. rewrite app_nil_r.
+  unfold get_hwires_entries. rewrite (collect_marked_inside s occ Hocc).
+  unfold hw_close, close_fuel. cbn [wl_close length plus rev].
+  eexists. split; [reflexivity|]. split; [apply finish_nodup, result_nodup|].
+  intro h. rewrite finish_In, result_In. cbn [nfirst filter map In]. rewrite in_flat_map. split.
+  - intros [[(p & Hp & Hh)|[]]|[]]. apply So in Hp as (Ht & Hx). exists p. split; [exact Ht|].
+    split; [|exact Hh]. destruct Hx as (y & Hy & [<-|[]]). exact Hy.
+  - intros (p & Ht & Hx & Hh). left. left. exists p. split; [|exact Hh]. apply So. split; [exact Ht|].
+    exists x. split; [exact Hx|left; reflexivity].
+Qed.
+
+Example ex3_instance_element_hypotheses :
+  Inv1a ex3 /\ Inv2a ex3 /\ WFk ex3 /\ acyclic ex3 /\ kind_of ex3 10 = Some KInstance /\
+  get_hwires_roots ex3 SInside false pat_any ex3_u [RObj (QId 10)] = Some [[7; 6; 10; 14]; [8; 6; 10; 14]].
+Proof.
+  split; [exact ex3_inv1a|]. split; [exact ex3_inv2a|]. split; [exact ex3_wfk|].
+  split; [exact ex3_acyclic|]. split; [reflexivity|vm_compute; reflexivity].
+Qed.
+
 Print Assumptions get_hwires_roots_nodup.
 Print Assumptions get_hcables_roots_nodup.
 Print Assumptions get_hpins_roots_nodup.
@@ -531,3 +581,4 @@ Print Assumptions get_hwires_roots_ALL_wire.
 Print Assumptions pattern_loop_In.
 Print Assumptions pattern_loop_nodup.
 Print Assumptions get_ordered_elements.
+Print Assumptions get_hwires_roots_instance_element.
